@@ -97,9 +97,21 @@ def run(chk: lib.Check):
         for e in all_sem:
             if (e.get(graph.XSI_TYPE) or "").endswith(":PhysicalLink"):
                 plends += ref_tokens(e.get("linkEnds", ""))
+        # ... and the subtrees that CONTAIN such an end (the refusal then comes after other purge contexts were entered)
+        byid = {e.get("id"): e for e in all_sem}
+        plparents = []
+        for u in plends:
+            e = byid.get(u)
+            for _ in range(3):
+                if e is None:
+                    break
+                e = e.getparent()
+                if e is not None and e.get("id") and e.get("id") in byid:
+                    plparents.append(e.get("id"))
+        plparents = list(dict.fromkeys(plparents))
         plan = []
-        share = max(1, n_targets // (4 * len(specs)))
-        for pool in (leaves, roots, popular, plends):
+        share = max(1, n_targets // (5 * len(specs)))
+        for pool in (leaves, roots, popular, plends, plparents):
             rng.shuffle(pool)
             plan += pool[:share]
         rng.shuffle(plan)
